@@ -11,8 +11,8 @@ from harness.framework import Suite
 
 PID = "C19"
 LEAN_MODS = ["SwcVerif.Props.C19", "SwcVerif.Props.C19Gen", "SwcVerif.Props.C19Front"]
-TRANSLATE_ALGO = ["AlgoPopulation", "AlgoPopFront"]    # Gen/AlgoPopulation.lean, Gen/AlgoPopFront.lean are regenerated from swcgeom/core/population.py on every run
-DRIVER_FILES = ["SwcVerif/Model/AlgoRunPopulation.lean", "SwcVerif/Model/AlgoRunPopFront.lean"]
+TRANSLATE_ALGO = ["AlgoPopulation", "AlgoPopFront", "AlgoPopMap"]    # Gen/AlgoPopulation.lean, Gen/AlgoPopFront.lean are regenerated from swcgeom/core/population.py on every run
+DRIVER_FILES = ["SwcVerif/Model/AlgoRunPopulation.lean", "SwcVerif/Model/AlgoRunPopFront.lean", "SwcVerif/Model/AlgoRunPopMap.lean"]
 THEOREMS = [
     "C19.getIdx_spec", "C19.step_len", "C19.load_at_most_once", "C19.loads_only_on_demand", "C19.log_monotone", "C19.get_returns",
     "C19.iter_returns", "C19.cumsum_spec", "C19.chain_len", "C19.chain_index", "C19.chain_index_neg", "C19.nest_index",
@@ -1378,7 +1378,89 @@ class SequenceSuite(Suite):
         return any(op["op"] == "chain" and any(i >= nb for i in op["of"]) for op in case["ops"])
 
 
-SUITES = [LazySuite(), ChainSuite(), MapSuite(), LayoutSuite(), OptionSuite(), SequenceSuite()]
+
+class GenMapSuite(Suite):
+    """`Population.find_swcs`, `Population.map` and `filter_population` as GENERATED from the source (Gen/AlgoPopMap.lean: `gfindswcs`, `gpopmap`,
+    `gpopfilter`) against the real functions: the file list of a directory tree (names with several dots, hidden names, other extensions, nested and
+    empty directories; `os.walk` and `os.path.relpath` results are sent as data, `posixpath.join` / `splitext` are re-implemented in the runner), the
+    results of `map` in order with the files read (after some trees were already loaded), the filtered population (length, elements, reads)."""
+    name = "c19.genmap"
+    case_timeout = 60
+
+    def cases(self, rng, tier, widen):
+        out = []
+        pool = ["a.swc", "b.eswc", "c.txt", ".swc", "d.x.swc", "e.swc.bak", "f.SWC", "noext", "..swc", "g.h.eswc", ".hid.swc", "h.", "i.swc"]
+        for k in range(8):
+            dirs = [""] + [rng.choice(["s", "t", "s/u", "e1", "t/v.swc"]) for _ in range(rng.randint(0, 3))]
+            files = sorted({(d + "/" if d else "") + rng.choice(pool) for d in dirs for _ in range(rng.randint(0, 4))})
+            out.append({"class": "genmap/find", "kind": "find", "dirs": sorted(set(dirs)), "files": files, "ext": rng.choice([".swc", ".swc", ".eswc", "", ".SWC"]),
+                        "rel": k % 2 == 1})
+        for n in (0, 1, 2, 4, 6):
+            pre = [rng.randint(-n, n - 1) for _ in range(rng.randint(0, 2))] if n else []
+            out.append({"class": f"genmap/map/n{n}", "kind": "map", "n": n, "pre": pre})
+        for n in (0, 1, 3, 5, 7):
+            for _ in range(2):
+                out.append({"class": f"genmap/filter/n{n}", "kind": "filter", "n": n, "pre": [rng.randint(-n, n - 1) for _ in range(rng.randint(0, 2))] if n else [],
+                            "keep": [int(rng.random() < 0.5) for _ in range(n)], "keys": [rng.randint(-n - 1, n) for _ in range(4)]})
+        return out
+
+    def run(self, case):
+        from swcgeom.core import Population
+        from swcgeom.core.population import filter_population
+
+        tmp = tempfile.mkdtemp(prefix="c19g_")
+        try:
+            with warnings.catch_warnings():
+                warnings.simplefilter("ignore")
+                root = os.path.join(tmp, "r")
+                if case["kind"] == "find":
+                    for d in case["dirs"]:
+                        os.makedirs(os.path.join(root, d), exist_ok=True)
+                    for f in case["files"]:
+                        os.makedirs(os.path.dirname(os.path.join(root, f)), exist_ok=True)
+                        open(os.path.join(root, f), "w").close()
+                    walk = [(r, os.path.relpath(r, root), list(fs)) for r, _, fs in os.walk(root)]
+                    return {"root": root, "walk": walk, "found": Population.find_swcs(root, case["ext"], case["rel"])}
+                n = case["n"]
+                write_dir(root, [f"t{i:03d}.swc" for i in range(n)])
+                with ReadLog() as rl:
+                    pop = Population.from_swc(root)
+                    pos = {file_no(f): i for i, f in enumerate(pop.trees.swcs)}
+                    mark = lambda t: pos[int(round(float(t.x()[0])))]
+                    for k in case["pre"]:
+                        pop[k]
+                    if case["kind"] == "map":
+                        got = [pos[int(round(float(v)))] for v in pop.map(root_x, max_worker=1)]
+                        return {"map": got, "reads": [pos[file_no(f)] for f in rl.log]}
+                    q = filter_population(pop, lambda t: bool(case["keep"][mark(t)]))
+                    elems = []
+                    for k in case["keys"]:
+                        try:
+                            elems.append(str(mark(q[k])))
+                        except IndexError:
+                            elems.append("E")
+                    return {"len": len(q), "elems": elems, "reads": [pos[file_no(f)] for f in rl.log]}
+        finally:
+            shutil.rmtree(tmp, ignore_errors=True)
+
+    def lines(self, case, res):
+        if not isinstance(res, dict) or "exc" in res:
+            return []
+        pre = ";".join(f"g:{k}" for k in case.get("pre", []))
+        ints = lambda l: ",".join(str(int(x)) for x in l)
+        if case["kind"] == "find":
+            walk = ";".join(f"{r}|{rel}|{','.join(fs)}" for r, rel, fs in res["walk"])
+            return [(f"gfindswcs root={res['root']} ext={case['ext']} rel={int(case['rel'])} walk={walk}", "|".join(res["found"]))]
+        if case["kind"] == "map":
+            return [(f"gpopmap n={case['n']} pre={pre} mul=1 add=0", f"{ints(res['map'])} / {ints(res['reads'])}")]
+        return [(f"gpopfilter n={case['n']} pre={pre} keep={ints(case['keep'])} keys={ints(case['keys'])}",
+                 f"{res['len']} ; {','.join(res['elems'])} / {ints(res['reads'])}")]
+
+    def nontrivial(self, case, res):
+        return case["kind"] == "find" and len(case["files"]) >= 2 or case.get("n", 0) >= 2
+
+
+SUITES = [LazySuite(), ChainSuite(), MapSuite(), LayoutSuite(), OptionSuite(), SequenceSuite(), GenMapSuite()]
 TECHNIQUE = ("Lean 4 theorems; _get_idx, LazyLoadingTrees.load/__getitem__/__len__, ChainTrees.__init__/__len__/__getitem__ and NestTrees.__getitem__ are TRANSLATED from "
              "population.py on every run (harness/translate_algo.py → Gen/AlgoPopulation.lean, file reads as a state-passing callback) and proved to compute what the models compute "
              "(RefinePop.*, C19.generated_chain_getitem, C19.generated_load_at_most_once: every history of index requests); the models: the lazy cache as a state machine (every operation history reads each file at most once and only files that were requested or the "
